@@ -662,6 +662,64 @@ func c11CLIScripted(e *Env, pool *hx.Pool) {
 	}
 }
 
+// c11CLIInterrupted: a revision left partially applied WITHOUT an error text (the process was killed between two
+// statements) is as unfinished as one that failed: `migrate set <v>` on it resolves it - afterwards status
+// reports v as current with nothing of v pending, and apply does not run v's remaining statements again.
+func c11CLIInterrupted(e *Env, pool *hx.Pool) {
+	for si, withErr := range []bool{false, true} {
+		s := &c11CLIState{e: e, pool: pool, dir: filepath.Join(e.Work, fmt.Sprintf("c11intr-%d", si)), blocked: map[string]bool{}}
+		os.MkdirAll(s.dir, 0o755)
+		fail := func(sig, what string) {
+			e.Res.Violate("failing-input", sig, what+"\ncommands:\n  "+strings.Join(s.ops, "\n  "), "Props.C11 status/apply/set agree with Pending", c11Scn{Files: s.files, Ops: s.ops})
+		}
+		s.files = []c11File{{V: "10"}, {V: "20", N: 3}, {V: "30"}}
+		s.writeDir()
+		dbp := filepath.Join(s.dir, "db.sqlite")
+		e.Res.Count(fmt.Sprintf("c11cli-interrupted:%v", withErr), true, "cli-op:set-on-interrupted-revision")
+		func() {
+			defer os.RemoveAll(s.dir)
+			if o := s.atlas("migrate", "apply", "--tx-mode", "none", "1"); o.Code != 0 {
+				return
+			}
+			if execSQL(dbp, "CREATE TABLE t20_2 (y int)") != nil {
+				return
+			}
+			s.ops = append(s.ops, "break: CREATE TABLE t20_2")
+			s.atlas("migrate", "apply", "--tx-mode", "none") // fails at statement 2 of 20
+			if !withErr {
+				if execSQL(dbp, "UPDATE atlas_schema_revisions SET error = '', error_stmt = '' WHERE version = '20'") != nil {
+					return
+				}
+				s.ops = append(s.ops, "the error text of revision 20 is cleared (as after a kill between two statements: applied 1 of 3, no error)")
+			}
+			db := s.read()
+			if len(db.revs) != 2 || db.revs[1].Applied != 1 || db.revs[1].Total != 3 {
+				return
+			}
+			if o := s.atlas("migrate", "set", "20"); o.Code != 0 {
+				fail("set-fails", fmt.Sprintf("`migrate set 20` on revisions %s fails: %s", db.revsText(), trunc(o.Stderr, 300)))
+				return
+			}
+			so := s.atlas("migrate", "status", "--format", "{{ json . }}")
+			var st c11Status
+			if so.Code != 0 || json.Unmarshal([]byte(so.Stdout), &st) != nil {
+				fail("set-then-status-fails", fmt.Sprintf("after `migrate set 20` on revisions %s, `migrate status` fails: %s", db.revsText(), trunc(so.Stderr+so.Stdout, 300)))
+				return
+			}
+			if got := names(st.Pending); strings.Join(got, ",") != "30_f.sql" || st.Current != "20" {
+				fail("set-disagrees-with-status", fmt.Sprintf("after `migrate set 20` on revisions %s (20 applied 1 of 3, error recorded: %v) status reports Current=%q, pending %v; expected Current=20, pending [30_f.sql]", db.revsText(), withErr, st.Current, got))
+				return
+			}
+			before := s.read()
+			s.atlas("migrate", "apply", "--tx-mode", "none")
+			after := s.read()
+			if after.tables["t20_3"] && !before.tables["t20_3"] {
+				fail("apply-ran-other-statements", fmt.Sprintf("after `migrate set 20`, `migrate apply` ran the remaining statements of 20 (tables %s)", after.tablesText()))
+			}
+		}()
+	}
+}
+
 func dedup(xs []string) []string {
 	seen := map[string]bool{}
 	var out []string
